@@ -14,7 +14,7 @@ from hypothesis import strategies as st
 from gen import seeds as S
 from ref7z import writer as RW
 from vlib import sandbox
-from vlib.runner import Check, Outcome
+from vlib.runner import Check, Outcome, REPO
 
 import py7zr
 from py7zr.io import NullIOFactory
@@ -38,7 +38,7 @@ def seed_names():
 
 def fixture_names():
     out = []
-    for p in sorted(glob.glob("/repo/tests/data/*.7z")):
+    for p in sorted(glob.glob(os.path.join(REPO, "tests/data/*.7z"))):
         try:
             if os.path.getsize(p) <= 65536:
                 out.append(os.path.basename(p))
@@ -60,7 +60,7 @@ def get_bytes(name):
         if name in S.PY_SEEDS:
             data, _, pw = S.build_py(name)
         elif name.endswith(".7z"):
-            with open(os.path.join("/repo/tests/data", name), "rb") as f:
+            with open(os.path.join(REPO, "tests/data", name), "rb") as f:
                 data = f.read()
             pw = "secret" if name.startswith("encrypted") else ("hello" if name.startswith("filename_enc") else None)
         else:
